@@ -248,9 +248,13 @@ def work(item):
                                 (0, 'Rotate(U) after a call with the same matrix object holding other values', 1),
                                 (1, 'UTransform(U) after a call with the same matrix object holding other values', 1),
                                 (2, 'UDaggerTransform(U) after a call with the same matrix object holding other values', 1),
-                                (2, 'UDaggerTransform(U) after calls in another dimension and with other values', 2)):
+                                (2, 'UDaggerTransform(U) after calls in another dimension and with other values', 2),
+                                (0, 'Rotate(U) with U a strided view into a larger matrix', 3), (1, 'UTransform(U) with U a strided view into a larger matrix', 3),
+                                (2, 'UDaggerTransform(U) with U a strided view into a larger matrix', 3)):
             if hist == 0:
                 ps = h.run('h_matrix_rotation', [I(which), I(d), Buf('a', a), Buf('ure', ur), Buf('uim', ui), Buf('o', n=n)])
+            elif hist == 3:
+                ps = h.run('h_matrix_rotation_view', [I(which), I(d), Buf('a', a), Buf('ure', ur), Buf('uim', ui), D(T.var('junk')), Buf('o', n=n)])
             else:
                 d0 = 0 if hist == 1 else (d + 1 if d < 6 else d - 1)
                 ps = h.run('h_matrix_rotation_twice', [I(which), I(d), I(d0), Buf('a', a), Buf('u1r', u1r), Buf('u1i', u1i), Buf('ure', ur), Buf('uim', ui), Buf('o', n=n)])
@@ -420,7 +424,9 @@ def replay(chk, h, c):
             which = c['which']
             X = rng.uniform(-1, 1, (d, d)) + 1j * rng.uniform(-1, 1, (d, d))
             Q, _ = np.linalg.qr(X)
-            if c.get('hist'):
+            if c.get('hist') == 3:
+                ret, o = h.native('h_matrix_rotation_view', [I(which), I(d), Buf('a', av), Buf('ure', Q.real.flatten()), Buf('uim', Q.imag.flatten()), D(7.25), Buf('o', [np.nan] * n)])
+            elif c.get('hist'):
                 P_ = rng.uniform(-1, 1, (d, d)) + 1j * rng.uniform(-1, 1, (d, d))
                 d0 = 0 if c['hist'] == 1 else (d + 1 if d < 6 else d - 1)
                 ret, o = h.native('h_matrix_rotation_twice', [I(which), I(d), I(d0), Buf('a', av), Buf('u1r', P_.real.flatten()), Buf('u1i', P_.imag.flatten()),
